@@ -63,6 +63,14 @@ REG["C07"] = dict(
     outside=["gzip-compressed filter bytes", "AVX kernels", "sizing/strategy selection in the writer (DESIGN K3 not built yet)"],
 )
 
+REG["C20"] = dict(
+    harnesses=[H(P + "/compress", "VerifH_C20_pooledGlue"), H(P + "/compress/lz4", "VerifH_C20_lz4Decode")],
+    explanation="Only the library's glue around the codecs is decidable; the compressors are foreign loops. (K1) compress.Compressor/Decompressor with pooled model streams obeying the documented Reset contract: for every history of round trips, failing decodes and empty inputs in the bound, with every destination capacity, Decode(Encode(x)) == x for symbolic x and a failed decode does not affect later calls. (K2) the LZ4_RAW decode loop with the block decoder replaced by its contract (valid block decodes iff the buffer has room, expansion <= 255x; invalid block always rejected): Decode returns the original for valid blocks and terminates with an error for invalid ones. Counterexamples of K2 are re-enacted natively against the real pierrec/lz4 decoder (scenario VerifS_C20_lz4Decode).",
+    bounds={"quick": "K1: histories of 2 operations, payload <=4 symbolic bytes, dst capacities 0..8; K2: block <=5 bytes, original <=600 bytes in 5 length classes, dst capacity in {0,1,16,64}, at most 16 decoder calls", "thorough": "K1: histories of 3 operations"},
+    outside=["the compressors themselves (snappy, gzip, brotli, zstd, lz4 block functions)", "concurrent use of one codec value", "zstd encoder/decoder pools"],
+    assumptions=["contract stub for github.com/pierrec/lz4/v4.UncompressBlock (see harness c20_lz4.go)"],
+)
+
 LEVEL_TEXT = "bounded symbolic execution of the real functions (go/ssa of the current /repo tree) with an SMT solver deciding every assertion for all inputs inside the stated bounds; counterexamples are replayed against the natively compiled code before being reported"
 
 def main():
